@@ -6,13 +6,13 @@ CONSTANTS
   MaxFaults = 1
   FaultKinds <- AllFaults
   MaxAuth = 1
-  Secrets <- S12
+  Secrets <- S1
   Questions <- Q0
   AllowEnd = TRUE
   MaxRequery = 0
   FixCommitState = TRUE
   SeqSMP = FALSE
-  FixSMPReset = FALSE
+  FixSMPReset = TRUE
 INVARIANTS TypeOK InOrderNoDup SlotBound NoSplice SMPSound NoNilKey
 PROPERTIES TamperRejected
 CHECK_DEADLOCK FALSE
